@@ -305,10 +305,32 @@ def nodrop(prog, floor=8):
             if l['k'] != 'DeclRefExpr' or r['k'] != 'MemberExpr' or r['n'] != 'high_address':
                 continue
             V = l['d']
+            # copies of the loop counter made at the top of the body (`n = (uint32_t)a;` / `const uint32_t i = (uint32_t)a;`)
+            # name the same address
+            alias = {V}
+            for x in fn.nodes.values():
+                w_ = fn.where.get(x['i'])
+                if w_ is None or w_[0] not in body:
+                    continue
+                if x['k'] == 'BinaryOperator' and x.get('op') == '=':
+                    r_ = strip(kids(x)[1], casts=True)
+                    l_ = strip(kids(x)[0], casts=True)
+                    if r_['k'] == 'DeclRefExpr' and r_.get('d') == V and l_['k'] == 'DeclRefExpr':
+                        others = [y for y in fn.nodes.values() if y['k'] in ('BinaryOperator', 'CompoundAssignOperator', 'UnaryOperator') and
+                                  (y.get('op') in ('++', '--') or (y.get('op', '').endswith('=') and y['op'] not in ('==', '!=', '<=', '>='))) and
+                                  strip(kids(y)[0], casts=True).get('d') == l_.get('d') and y['i'] != x['i'] and
+                                  (fn.where.get(y['i']) or (None,))[0] in body]
+                        if not others:
+                            alias.add(l_['d'])
+                elif x['k'] == 'DeclStmt':
+                    for d_, i_ in zip([z for z in x.get('decls', ()) if z.get('init')], kids(x)):
+                        r_ = strip(i_, casts=True)
+                        if r_['k'] == 'DeclRefExpr' and r_.get('d') == V:
+                            alias.add(d_['d'])
 
             def is_v(x):
                 x = strip(x, casts=True)
-                return x['k'] == 'DeclRefExpr' and x.get('d') == V
+                return x['k'] == 'DeclRefExpr' and x.get('d') in alias
             # emptiness edges
             empty_edges = set()
             for bid in body:
